@@ -45,15 +45,13 @@ def generate(ctx, profile, maxlen, *, simulate=None, depth=None, minstop=0, maxd
     if not r["ok"]:
         raise MachineryError(f"TLC failed on generator MC_{profile}: {r['error'][:600]}")
     ctx.add_tlc(f"gen:{profile}:len{maxlen}" + (f":sim{simulate}" if simulate else ""), r)
-    progs, seen = [], set()
+    seen = {}
     for ln in r["lines"]:
         tag, _, js = tlc.payload(ln)
         if tag == "PROG":
-            key = json.dumps(js, sort_keys=True)
-            if key not in seen:
-                seen.add(key)
-                progs.append(js)
-    return progs
+            seen.setdefault(json.dumps(js, sort_keys=True), js)
+    # TLC's workers print in a nondeterministic order: sort, so that a seed reproduces a run
+    return [seen[k] for k in sorted(seen)]
 
 
 def instantiate(prog, v1, v2, rng, variants=True):
@@ -178,7 +176,7 @@ def run_family(ctx, prop, clause_of, nontrivial, rule, want=("steps", "dec", "ch
             nontriv.add(rec["hex"])
         c = clause_of(v, rec)
         if c:
-            opset = sorted({o["o"] for o in rec["prog"]})
+            opset = sorted({o["o"] for o in rec["prog"]} | features(rec))
             failures.append({"clause": c, "opset": opset,
                              "detail": " ".join(o["o"] for o in rec["prog"][:40]) + " hex=" + rec["hex"][:120],
                              "replay_obj": {"property": prop, "clause": c, "verdict": v, "record": rec}})
@@ -196,6 +194,20 @@ def run_family(ctx, prop, clause_of, nontrivial, rule, want=("steps", "dec", "ch
                   assumptions=ASSUME, machinery_errors=mach,
                   extra={"out_of_typed_domain": outdom, "exhaustive": False,
                          "profiles": [f"{g['profile']}:len{g['maxlen']}" + (":simulate" if g.get("simulate") else ":exhaustive") for g in P["plan"]]})
+
+
+def features(rec):
+    """derived program features usable in known-finding signatures"""
+    f = set()
+    imps = [(e["m"], e["n"]) for e in rec["ref"]["ev"] if e["e"] == "import"]
+    if any("." in n for _m, n in imps):
+        f.add("F:dotted-global-name")
+    byname = {}
+    for m, n in imps:
+        byname.setdefault(n, set()).add(m)
+    if any(len(ms) > 1 for ms in byname.values()):
+        f.add("F:same-name-different-module")
+    return f
 
 
 def assemble_safe(rec):
